@@ -91,6 +91,16 @@ Qed.
 Lemma noLT_blank n : ~ In cLT (rep n cSP).
 Proof. intro I. apply repeat_spec in I. discriminate. Qed.
 
+Lemma scan_box_raw P s :
+  ~ In cLT s ->
+  scan None ([cH; cRT] ++ rep P cSP ++ s ++ rep P cSP ++ [cLT; cH]) = ([padded P s], None).
+Proof.
+  intro H.
+  assert (E : rep P cSP ++ s ++ rep P cSP ++ [cLT; cH] = padded P s ++ [cLT; cH]).
+  { unfold padded. rewrite <- !app_assoc. reflexivity. }
+  rewrite E. apply scan_box. apply noLT_padded. exact H.
+Qed.
+
 Lemma NoDup_all_eq (l : list nat) a : NoDup l -> (forall x, In x l -> x = a) -> length l <= 1.
 Proof.
   intros ND H. destruct l as [|x [|y r]]; simpl; try lia.
@@ -124,8 +134,7 @@ Proof.
     destruct (is_single targets controls) eqn:E1.
     + unfold op_emit. rewrite E1. pose proof I as I'. apply mem_true in I'.
       rewrite (emit_w_in _ _ _ _ I'). rewrite I'. unfold draw_singleq. cbv zeta. cbn [fst app3p app3 mid emptyW].
-      rewrite app_nil_l. simpl map. apply (scan_box (padded P (gate_text name al))).
-      apply noLT_padded. exact TK.
+      rewrite app_nil_l. simpl map. apply scan_box_raw. exact TK.
     + destruct (str_eqb name sSWAP) eqn:E2.
       * unfold op_emit. rewrite E1, E2. cbv zeta. unfold op_wl. rewrite E1, E2.
         apply mem_true in I. rewrite (emit_w_in _ _ _ _ I). simpl map.
@@ -134,7 +143,6 @@ Proof.
           [|destruct (w =? hd 0 (range (lmin targets) (lmax targets + 1)))];
           cbn [app3 mid emptyW]; rewrite app_nil_l; apply noRT_bar3; discriminate.
       * pose proof (wf_gate _ _ _ _ _ _ W) as [Hne [ND _]].
-        assert (NDt : NoDup targets) by (apply NoDup_app_remove_r in ND; exact ND).
         destruct (multi_wl_cases nq nc name al targets controls w W I) as [C|[[HC C]|[HC C]]].
         -- rewrite (multi_inside P nq nc name al targets controls E1 E2 w emptyW C).
            unfold target_wire, draw_multiq. cbv zeta. cbn [fst p_top p_mid p_conn p_lab p_bot].
@@ -142,18 +150,17 @@ Proof.
            ++ apply Nat.eqb_eq in EL. pose proof (len1_lmin_lmax targets EL) as Elh.
               assert (Ew : (w =? lmin targets) = true) by (apply Nat.eqb_eq; lia).
               rewrite Ew. cbn [app3 mid emptyW]. rewrite app_nil_l. simpl map.
-              apply (scan_box (padded P (gate_text name al))). apply noLT_padded. exact TK.
+              apply scan_box_raw. exact TK.
            ++ destruct (w =? lmin targets) eqn:Ew.
               ** apply Nat.eqb_eq in Ew. subst w.
                  rewrite (proj2 (mem_true _ _) (lmin_in targets Hne)). simpl andb. cbv iota.
                  cbn [app3 mid emptyW]. rewrite app_nil_l. simpl map.
-                 apply (scan_box (padded P (gate_text name al))). apply noLT_padded. exact TK.
+                 apply scan_box_raw. exact TK.
               ** simpl andb. cbv iota. destruct (w =? lmax targets) eqn:Ew2.
                  --- apply Nat.eqb_eq in Ew2. subst w.
                      rewrite (proj2 (mem_true _ _) (lmax_in targets Hne)). simpl andb. cbv iota.
                      cbn [app3 mid emptyW]. rewrite app_nil_l. simpl map.
-                     apply (scan_box (padded P (rep (length (gate_text name al)) cSP))).
-                     apply noLT_padded. apply noLT_blank.
+                     apply scan_box_raw. apply noLT_blank.
                  --- simpl andb. cbv iota. simpl map.
                      assert (NM : ~ In cRT ([cSP; cV] ++ rep P cSP ++ rep (length (gate_text name al)) cSP
                                              ++ rep P cSP ++ [cV; cSP])).
@@ -193,7 +200,7 @@ Proof.
       unfold cbridge_wire. rewrite Nat.eqb_refl.
       unfold draw_meas, draw_singleq. cbv zeta.
       destruct (t <? c + nq); cbn [fst app3p app3 mid emptyW]; rewrite app_nil_l; simpl map;
-        apply (scan_box (padded P sM)); apply noLT_padded; intros [E|[]]; discriminate.
+        apply scan_box_raw; intros [E|[]]; discriminate.
     + rewrite emit_w_out by (simpl; rewrite Ew; reflexivity).
       simpl map. apply scan_noRT. unfold cbridge_wire. rewrite Ew.
       destruct (w =? nq + c); [|destruct (nq <? w)];
@@ -391,6 +398,21 @@ Proof.
   simpl. apply app_nil_r.
 Qed.
 
+Lemma strip_contents P ops w :
+  map (strip P) (flat_map (fun o => op_content P o w) ops) = circuit_labels ops w.
+Proof.
+  unfold circuit_labels. induction ops as [|o r IH]; [reflexivity|].
+  simpl. rewrite map_app. f_equal; [|exact IH].
+  unfold op_content. rewrite map_map. rewrite <- (map_id (op_labels o w)) at 2.
+  apply map_ext. intro s. apply strip_padded.
+Qed.
+
+Lemma wf_input_style sty nq nc ops : wf_input sty nq nc ops = true -> wf_style sty nq nc = true.
+Proof.
+  unfold wf_input. intro WF. apply andb_true_iff in WF. destruct WF as [WF _].
+  apply andb_true_iff in WF. tauto.
+Qed.
+
 Lemma labels_in_order_l sty nq nc ops rows :
   wf_input sty nq nc ops = true -> Forall text_ok ops ->
   layout true sty nq nc ops = Some rows ->
@@ -401,22 +423,60 @@ Proof.
   intros WF TK HL i Li.
   destruct (layout_read sty nq nc ops rows WF TK HL i Li) as [body [A B]].
   unfold read_labels. rewrite A.
-  assert (WS : wf_style sty nq nc = true).
-  { unfold wf_input in WF. apply andb_true_iff in WF. destruct WF as [WF _].
-    apply andb_true_iff in WF. tauto. }
-  rewrite skipn_app. rewrite skipn_all2 by (rewrite pre_w_length; [lia | exact WS | apply print_order_bound; exact Li]).
-  rewrite pre_w_length by (try exact WS; apply print_order_bound; exact Li).
+  pose proof (wf_input_style _ _ _ _ WF) as WS.
+  pose proof (pre_w_length sty nq nc _ WS (print_order_bound nq nc i Li)) as PL.
+  rewrite skipn_app. rewrite skipn_all2 by lia. rewrite PL.
   replace (prefix_len sty nq nc - prefix_len sty nq nc) with 0 by lia. simpl skipn. rewrite app_nil_l.
-  rewrite B. unfold circuit_labels.
-  induction ops as [|o r IH]; [reflexivity|].
-  simpl. rewrite map_app. f_equal.
-  - unfold op_content. rewrite map_map. rewrite <- (map_id (op_labels o _)) at 2.
-    apply map_ext. intro s. apply strip_padded.
-  - apply IH.
-    + unfold wf_input in *. apply andb_true_iff in WF. destruct WF as [WF W3].
-      simpl in W3. apply andb_true_iff in W3. destruct W3 as [_ W3]. rewrite WF, W3. reflexivity.
-    + inversion TK; assumption.
-    + (* not used *) exact HL.
+  rewrite B. apply strip_contents.
+Qed.
+
+(* ------------------------------------------------------------------------------------------ *)
+(* rows only ever grow at their end                                                            *)
+(* ------------------------------------------------------------------------------------------ *)
+Definition extends (nq nc : nat) (st st' : state) : Prop :=
+  forall w, w < nq + nc -> forall k, exists s, row_of k (wire_of st' w) = row_of k (wire_of st w) ++ s.
+
+Lemma extends_refl nq nc st : extends nq nc st st.
+Proof. intros w _ k. exists []. rewrite app_nil_r. reflexivity. Qed.
+
+Lemma extends_trans nq nc a b c : extends nq nc a b -> extends nq nc b c -> extends nq nc a c.
+Proof.
+  intros H1 H2 w Lw k. destruct (H1 w Lw k) as [s1 E1]. destruct (H2 w Lw k) as [s2 E2].
+  exists (s1 ++ s2). rewrite E2, E1. rewrite app_assoc. reflexivity.
+Qed.
+
+Lemma step_extends sty nq nc st o st' x :
+  0 < nq -> wf_op nq nc o = true -> Inv nq nc st ->
+  step true sty nq nc st o = Some (st', x) -> extends nq nc st st'.
+Proof.
+  intros Hq W IN HS.
+  destruct (step_grow sty nq nc st o Hq W IN) as [st1 [HS1 [_ HW]]].
+  rewrite HS in HS1. inversion HS1; subst st1. clear HS1.
+  intros w Lw k. rewrite (HW w Lw). destruct (mem w (op_wl nq nc o)).
+  - unfold grow. destruct (op_seg true (padw sty) nq nc o w) as [[a b] c].
+    destruct k; cbn [row_of top mid bot]; eexists; rewrite <- app_assoc; reflexivity.
+  - exists []. rewrite app_nil_r. reflexivity.
+Qed.
+
+Lemma run_extends sty nq nc ops : forall st xs st' xs',
+  0 < nq -> forallb (wf_op nq nc) ops = true -> Inv nq nc st ->
+  run true sty nq nc ops st xs = Some (st', xs') -> extends nq nc st st'.
+Proof.
+  induction ops as [|o r IH]; intros st xs st' xs' Hq W IN HR.
+  - simpl in HR. inversion HR; subst. apply extends_refl.
+  - simpl in W. apply andb_true_iff in W. destruct W as [W1 W2].
+    destruct (step_inv sty nq nc st o Hq W1 IN) as [st1 [HS I1]].
+    simpl in HR. rewrite HS in HR.
+    apply (extends_trans nq nc st st1 st').
+    + apply (step_extends sty nq nc st o st1 _ Hq W1 IN HS).
+    + apply (IH st1 _ st' xs' Hq W2 I1 HR).
+Qed.
+
+Lemma final_extends sty nq nc st : Inv nq nc st -> extends nq nc st (final_pad sty nq nc st).
+Proof.
+  intros IN w Lw k. destruct (final_rows sty nq nc st IN) as [_ FW].
+  destruct (FW w Lw) as [E _]. rewrite E. unfold pad_wire.
+  destruct k; cbn [row_of top mid bot]; eexists; reflexivity.
 Qed.
 
 Lemma wire_order_l sty nq nc ops rows :
@@ -432,7 +492,16 @@ Proof.
   rewrite (nth_rows_of nq nc _ i 1 Li) by lia. cbn zeta. simpl nth.
   rewrite print_order_nth by exact Li.
   set (w := if i <? nq then nq - 1 - i else nq + (nq + nc - 1 - i)).
-  assert (Lw : w < nq + nc). { unfold w. destruct (i <? nq) eqn:E; [apply Nat.ltb_lt in E|apply Nat.ltb_ge in E]; lia. }
-  (* the middle row only ever grows at its end *)
-  admit.
-Admitted.
+  assert (Lw : w < nq + nc).
+  { unfold w. destruct (i <? nq) eqn:E; [apply Nat.ltb_lt in E|apply Nat.ltb_ge in E]; lia. }
+  pose proof (wf_input_style _ _ _ _ WF) as WS.
+  unfold wf_input in WF. apply andb_true_iff in WF. destruct WF as [WF W3].
+  apply andb_true_iff in WF. destruct WF as [W1 _].
+  assert (Hq : 0 < nq). { destruct nq; [discriminate|lia]. }
+  destruct (init_inv sty nq nc Hq WS) as [st0' [HA' I0]]. rewrite HA in HA'. inversion HA'; subst st0'.
+  pose proof (read_init sty nq nc st0 Hq WS HA w Lw) as [b0 [M0 _]].
+  pose proof (run_extends sty nq nc ops st0 [] st xs Hq W3 I0 HR w Lw RMid) as [s1 E1].
+  pose proof (final_extends sty nq nc st IN w Lw RMid) as [s2 E2].
+  cbn [row_of] in E1, E2. rewrite E2, E1, M0. unfold pre_w.
+  eexists. rewrite <- !app_assoc. reflexivity.
+Qed.
